@@ -265,6 +265,7 @@ def run_scenario(sc: dict) -> dict:
         'uncaught': s.uncaught, 'parked': parked,
         'events': [list(e) for e in s.events],
         'sig': s.signature(), 'delivery_sig': s.delivery_signature(),
+        'trace_tail': [list(t) for t in s.trace[-60:]],
         'preemptions': [list(p) for p in s.preemptions],
         'crashed': [list(c) for c in s.crashed],
         'line_seen': [list(x) for x in s.line_seen] if s.line_record else [],
